@@ -1,45 +1,6 @@
-(* C14: the `allowed` of the executable instance (AuthEvents container + table of the real
-   Allowed) satisfies the one hypothesis the theorems make about `allowed`. *)
-From Coq Require Import List NArith Bool.
-From Verif Require Import Lib.Bytes Fed.Filters Fed.Spec Fed.Instance.
+(* C14: small list facts used by the examples of Props/C14.v. *)
+From Coq Require Import List Bool.
 Import ListNotations.
-Open Scope N_scope.
-
-Lemma same_tuple_refl a : same_tuple a a = true.
-Proof.
-  unfold same_tuple. rewrite N.eqb_refl. destruct (skey a); simpl; auto. apply N.eqb_refl.
-Qed.
-
-Lemma existsb_dup {A} (p : A -> bool) l1 a l2 :
-  existsb p (l1 ++ a :: a :: l2) = existsb p (l1 ++ a :: l2).
-Proof.
-  rewrite !existsb_app. simpl. destruct (p a); simpl; auto.
-Qed.
-
-Lemma forallb_dup {A} (p : A -> bool) l1 a l2 :
-  forallb p (l1 ++ a :: a :: l2) = forallb p (l1 ++ a :: l2).
-Proof.
-  rewrite !forallb_app. simpl. destruct (p a); simpl; auto.
-Qed.
-
-Lemma final_map_dup l1 a l2 : final_map (l1 ++ a :: a :: l2) = final_map (l1 ++ a :: l2).
-Proof.
-  induction l1 as [|e l1 IH]; simpl.
-  - now rewrite same_tuple_refl.
-  - rewrite existsb_dup, IH. reflexivity.
-Qed.
-
-Lemma rooms_valid_dup l1 a l2 : rooms_valid (l1 ++ a :: a :: l2) = rooms_valid (l1 ++ a :: l2).
-Proof.
-  destruct l1 as [|e l1]; simpl.
-  - now rewrite N.eqb_refl.
-  - apply forallb_dup.
-Qed.
-
-Theorem allowed_inst_stutter s alt : stutter_invariant (allowed_inst s alt).
-Proof.
-  intros e l1 a l2. unfold allowed_inst. now rewrite rooms_valid_dup, final_map_dup.
-Qed.
 
 Lemma forallb_ext_c14 {A} (p q : A -> bool) l : (forall a, p a = q a) -> forallb p l = forallb q l.
 Proof. intros H. induction l as [|a l IH]; simpl; auto. now rewrite H, IH. Qed.
